@@ -5,6 +5,7 @@ package core
 
 import (
 	"cmp"
+	"strings"
 
 	"github.com/apmckinlay/gsuneido/core/types"
 	"github.com/apmckinlay/gsuneido/util/dnum"
@@ -263,6 +264,11 @@ func intable(s string, exp int8, xor byte) bool {
 	e := int8(2*(len(s)-2) - 1)
 	if exp < e || (exp == e && (s[len(s)-1]^xor)%10 != 0) {
 		return false // has a fractional part
+	}
+	if xor != 0 && strings.HasPrefix(PackedMinInt64, s) {
+		// the digits are a prefix of MinInt64's (rest zeros), so it fits,
+		// but byte-wise a prefix compares less than PackedMinInt64
+		return true
 	}
 	return PackedMinInt64 <= s && s <= PackedMaxInt64
 }
